@@ -602,6 +602,41 @@ def run(chk):
     if not getattr(chk, "_overlay", None):
         common.linear_types_rule(chk, P, "C05.R8:guards-are-linear", "a span guard cannot be copied (a copy would complete the span a second time)",
                                  {"emit::span::SpanGuard": "each copy completes on drop: the span would complete twice"})
+
+    def who_writes_guard_state():
+        """The typestate of a span guard (state / data / completion) is only changed by the methods the typestate rules above decide: a further
+        writer - an added `restart`, `reset`, `take_data` - is outside them (a started span reset to Initial is never completed; a completed one
+        re-armed completes twice)."""
+        KNOWN = ("start", "complete_default", "complete_with", "map_props", "with_completion", "new", "disabled", "drop", "complete", "with_mdl", "with_name",
+                 "with_props", "with_ctxt_props", "with_parent", "with_lvl")
+        bad = []
+        n = 0
+        for k, b in P.bodies.items():
+            if b.crate != "emit" or b.is_closure or "span.rs" not in b.file or "::tests::" in k:
+                continue
+            writes = []
+            for bb, j2, st in b.statements(normal_only=True):
+                if st["k"] == "assign" and st["place"].get("p"):
+                    names = [p.get("n") for p in st["place"]["p"] if isinstance(p, dict) and "n" in p]
+                    if names and names[-1] in ("state", "completion") and "SpanGuard<" in b.local_ty(st["place"]["l"]):
+                        writes.append(names[-1])
+            for c in b.calls(normal_only=True):
+                if c.callee.get("name") in ("take", "replace", "insert", "get_or_insert", "get_or_insert_with") and c.args:
+                    r, names = mir.o_field_path(b.origin(c.args[0]))
+                    if names and names[-1] in ("state", "completion", "data") and r[0] == "param" and "SpanGuard<" in b.local_ty(r[1]):
+                        writes.append(names[-1])
+            if writes:
+                n += 1
+                if k.rsplit("::", 1)[-1] not in KNOWN:
+                    bad.append((b, writes))
+        if n < 5:
+            raise mir.AnchorMissing("writers of the span guard's typestate (found %d)" % n)
+        if bad:
+            b, w = bad[0]
+            return False, ("%s changes the span guard's %s, but is not one of the methods the completion typestate is decided over (%s)"
+                           % (b.key, "/".join(sorted(set(w))), ", ".join(KNOWN[:5]) + ", ...")), [], b.span
+        return True, "", ["%d writers, all decided by the typestate rules" % n]
+    chk.ob("C05.R8:who-writes-guard-state", "the span guard's state, data and completion are changed only by the methods the typestate rules decide", who_writes_guard_state)
     return chk
 
 
